@@ -174,8 +174,9 @@ def generate(ctx, shard=0, nshards=1):
                     for m in range(1, 13):
                         check_month(ctx, Epoch, yy, m, True)
 
-    if ctx.tier == 'thorough' and ctx.scale <= 1.0:
-        # exhaustive: every civil date YMIN..YMAX (sharded by year)
+    if ctx.tier == 'thorough' or ctx.scale > 1.0:
+        # exhaustive: every civil date YMIN..YMAX (sharded by year).  Also taken by the quick tier when the
+        # source of a modelled function changed (ctx.scale > 1): 40 s buys certainty over the whole domain.
         ctx.exhaustive = True
         for y in range(YMIN + shard, YMAX + 1, nshards):
             for m in range(1, 13):
